@@ -311,6 +311,8 @@ def _np_axis(p):
 def reduce_fields(fn, p, nargs=1):
     """The TLA-facing, uniformly typed fields of a reduce event."""
     ax = p.get("axis", "none")
+    if ax == "omitted":
+        ax = 0                  # only used with the ufunc.reduce / accumulate spellings: numpy's default there is axis 0
     none = isinstance(ax, str)
     axes = [] if none else (list(ax) if isinstance(ax, list) else [ax])
     return {"axes": axes, "axis_none": none, "keepdims": bool(p.get("keepdims", False)),
@@ -332,6 +334,8 @@ def _reduce(p):
                 return getattr(a, fn)(axis=axis, **kd)
             if sp == "reduce":
                 uf = numpy.add if fn == "sum" else numpy.multiply
+                if q.get("axis") == "omitted":
+                    return uf.reduce(a, **kd)          # ufunc.reduce without an axis works along the first one
                 return uf.reduce(a, axis=axis, **kd)
             return getattr(mod, fn)(a, axis=axis, **kd)
         if fn == "mean":
@@ -342,6 +346,8 @@ def _reduce(p):
             if sp == "method":
                 return a.cumsum(axis=axis)
             if sp == "accumulate":
+                if q.get("axis") == "omitted":
+                    return numpy.add.accumulate(a)
                 return numpy.add.accumulate(a, axis=axis)
             return mod.cumsum(a, axis=axis)
         if fn == "diff":
